@@ -27,6 +27,7 @@ class Run:
         self.assumptions = []   # harness preconditions (z3 terms)
         self.feasible = None    # callback(list_of_terms) -> 'sat'/'unsat'/'unknown'
         self.nforks = 0
+        self.where = None       # source text of the expression being evaluated (AST interpreter), for stable VC names
         self.log = []
 
 
@@ -70,7 +71,7 @@ def vc(kind, cond):
     s = z3.simplify(cond)
     if z3.is_true(s):
         return
-    _cur.vcs.append((kind, guard_term(), cond))
+    _cur.vcs.append((kind if not _cur.where else "%s@%s" % (kind, _cur.where), guard_term(), cond))
 
 
 def vc_nonzero(b):
